@@ -510,3 +510,80 @@ def r_sentinel(db, rep):
                 rep.viol("%s#narrow-sentinel" % f.qn, f.nloc(n),
                          "%s returns (%s)%d from a function returning %s: the value is %d-bit all-ones zero-extended, not the %d-bit sentinel its "
                          "callers (and sibling implementations) use" % (f.qn, ct["s"], inner, rt["s"], ct["bits"], rt["bits"]), f.qn)
+
+
+def _bound_call_local(f, n):
+    """n denotes (a local holding) the result of std::lower_bound / std::upper_bound."""
+    s = strip(n)
+    if s["k"] in ("CallExpr",) and callee_name(s) in ("lower_bound", "upper_bound", "equal_range"):
+        return True
+    if s["k"] == "DeclRefExpr" and s.get("dk") == "local":
+        ini = single_def_init(f, s["d"])
+        if ini is not None:
+            return _bound_call_local(f, ini)
+    if s["k"] in ("CXXConstructExpr", "CXXTemporaryObjectExpr") and len(s.get("args", [])) == 1:
+        return _bound_call_local(f, s["args"][0])
+    return False
+
+
+def _iter_distance(f, n, depth=0):
+    """n is `it - v.begin()` (or a local holding it) with `it` a lower_bound / upper_bound result."""
+    s = strip(n)
+    if depth > 4:
+        return False
+    if (s["k"] == "CXXOperatorCallExpr" and s.get("opcall") == "-" and len(s.get("args", [])) == 2) or \
+            (s["k"] == "BinaryOperator" and s["op"] == "-"):
+        a, b = (s["args"][0], s["args"][1]) if s["k"] == "CXXOperatorCallExpr" else (s["lhs"], s["rhs"])
+        if _bound_call_local(f, a) and any(x["k"] == "CXXMemberCallExpr" and callee_name(x) in ("begin", "cbegin") for x in walk(b)):
+            return True
+    if s["k"] == "CallExpr" and callee_name(s) == "distance" and len(s.get("args", [])) == 2 and _bound_call_local(f, s["args"][1]):
+        return True
+    if s["k"] == "DeclRefExpr" and s.get("dk") == "local":
+        ini = single_def_init(f, s["d"])
+        if ini is not None:
+            return _iter_distance(f, ini, depth + 1)
+    return False
+
+
+@rule("R-PREDINDEX", 1, "the predecessor of a lower_bound / upper_bound position (`pos - 1`) is taken only where the position is known not "
+                        "to be the beginning of the range: otherwise a key below the first element turns into index SIZE_MAX")
+def r_predindex(db, rep):
+    for f in sorted(db.funcs.values(), key=lambda x: (x.file, x.line)):
+        if not f.body or f.file.startswith("libcds/") or f.cfg is None:
+            continue
+        for n in f.live_nodes():
+            if n["k"] != "BinaryOperator" or n["op"] != "-" or const_value(n["rhs"]) != 1:
+                continue
+            if not _iter_distance(f, n["lhs"]):
+                continue
+            rep.visit(f)
+            rep.inst(f.nloc(n), "%s takes the predecessor of a bound-search position" % f.qn)
+            rep.ob()
+            pv = access_path(f, n["lhs"])
+            ok = False
+            for c, pol in f.cfg.guards(n):
+                if c is None:
+                    continue
+                sc = strip(c)
+                if sc["k"] == "BinaryOperator" and sc["op"] in (">", "!=", ">=", "==", "<", "<="):
+                    l, r = access_path(f, sc["lhs"]), access_path(f, sc["rhs"])
+                    lv, rv = const_value(sc["lhs"]), const_value(sc["rhs"])
+                    if pv is not None and l == pv and rv is not None:
+                        if (sc["op"] == ">" and rv >= 0 and pol) or (sc["op"] == "!=" and rv == 0 and pol) or (sc["op"] == ">=" and rv >= 1 and pol) or \
+                                (sc["op"] == "==" and rv == 0 and not pol) or (sc["op"] == "<=" and rv == 0 and not pol) or (sc["op"] == "<" and rv == 1 and not pol):
+                            ok = True
+                    if pv is not None and r == pv and lv is not None:
+                        if (sc["op"] == "<" and lv >= 0 and pol) or (sc["op"] == "!=" and lv == 0 and pol):
+                            ok = True
+                # it != v.begin()
+                if sc["k"] in ("CXXOperatorCallExpr", "BinaryOperator") and (sc.get("opcall") in ("!=", "==") or sc.get("op") in ("!=", "==")):
+                    op = sc.get("opcall") or sc.get("op")
+                    ops = sc.get("args") or [sc.get("lhs"), sc.get("rhs")]
+                    if any(o is not None and _bound_call_local(f, o) for o in ops) and \
+                            any(x["k"] == "CXXMemberCallExpr" and callee_name(x) in ("begin", "cbegin") for o in ops if o is not None for x in walk(o)):
+                        if (op == "!=" and pol) or (op == "==" and not pol):
+                            ok = True
+            if not ok:
+                rep.viol("%s#predecessor-of-begin" % f.qn, f.nloc(n),
+                         "%s computes (bound position) - 1 without having excluded position 0: for a key that sorts before the first element "
+                         "the result wraps to SIZE_MAX and callers index their vectors with it" % f.qn, f.qn)
